@@ -5,6 +5,9 @@ from typing import Dict, Mapping, Tuple, Union
 from ocean_science_utilities.wavephysics.balance._numba_settings import numba_default
 from ocean_science_utilities.wavephysics.balance.solvers import numba_newton_raphson
 
+# np.trapz was removed in numpy 2.x in favour of np.trapezoid
+_trapezoid = getattr(np, "trapezoid", None) or np.trapz
+
 
 @numba.jit(**numba_default)
 def tail_stress_parametrization_jb23(
@@ -124,7 +127,7 @@ def tail_stress_parametrization_jb23(
         wavenumbers, roughness_length, friction_velocity, tail_spectrum, parameters
     )
     integral = (
-        np.trapz(stress, wavenumbers) + background_stress * parameters["air_density"]
+        _trapezoid(stress, wavenumbers) + background_stress * parameters["air_density"]
     )
 
     eastward_stress = integral * stress_east_fac
